@@ -164,7 +164,7 @@ func serve(dir string, portBase int, eng string, out *os.File) {
 					continue
 				}
 				if rsp.Term != 0 || rsp.Index != 0 {
-					parts = append(parts, fmt.Sprintf("%s:%d.%d.%d", clusterName(c), rsp.Term, rsp.Index, rsp.Timestamp))
+					parts = append(parts, fmt.Sprintf("%s:%d.%d.%s", clusterName(c), rsp.Term, rsp.Index, tsStr(rsp.Timestamp)))
 				}
 			}
 			s := "-"
@@ -175,7 +175,7 @@ func serve(dir string, portBase int, eng string, out *os.File) {
 			if err != nil {
 				jl = -1
 			}
-			reply = fmt.Sprintf("%s;%d", s, jl)
+			reply = fmt.Sprintf("%s;%d;-", s, jl)
 		case "S":
 			before := snapFiles(dir)
 			n.Node.BackupDB(false)
